@@ -1095,6 +1095,10 @@ class Interp:
             if name == "sum" and len(e.args) == 1 and any(k_.arg == "axis" for k_ in e.keywords):
                 v = self.num(self.ev(e.args[0], env))
                 axis = next(self.ev(k_.value, env) for k_ in e.keywords if k_.arg == "axis")
+                keep = next((self.ev(k_.value, env) for k_ in e.keywords if k_.arg == "keepdims"), False)
+                if isinstance(v, Table) and len(v.shape) == 1 and axis in (0, -1):
+                    tot = sum(v.data.values(), LP())
+                    return Table((1,), {(0,): tot}) if keep is True else tot
                 if isinstance(v, Table) and len(v.shape) == 2 and axis in (1, -1):
                     return Table((v.shape[0],), {(i,): sum((v.data[(i, j)] for j in range(v.shape[1])), LP()) for i in range(v.shape[0])})
                 if isinstance(v, Table) and len(v.shape) == 2 and axis in (0, -2):
@@ -1107,7 +1111,8 @@ class Interp:
                     return Table((v.shape[1],), {(j,): sum((v.data[(i, j)] for i in range(v.shape[0])), LP()) * inv_n for j in range(v.shape[1])})
                 if isinstance(v, Table) and len(v.shape) == 1 and axis in (None, 0, -1):
                     return sum(v.data.values(), LP()) * LP.const(Fraction(1, v.shape[0]))
-            if name == "append" and len(e.args) == 2 and not e.keywords:
+            if name == "append" and len(e.args) == 2 and (not e.keywords or (len(e.keywords) == 1 and e.keywords[0].arg == "axis" and self.ev(e.keywords[0].value, env) in (-1, 0)
+                                                                              and isinstance(self.ev(e.args[0], env), Table) and len(self.ev(e.args[0], env).shape) == 1)):
                 a_, b_ = self.num(self.ev(e.args[0], env)), self.ev(e.args[1], env)
                 if isinstance(a_, Table) and len(a_.shape) == 1:
                     extra = [self.lp(x) for x in b_] if isinstance(b_, list) else [self.lp(b_)] if isinstance(b_, (int, LP)) else None
@@ -2739,6 +2744,7 @@ def rule_metric_constructions(run: Run, prog: Program) -> int:
                     if a_ and isinstance(a_[0], int) and isinstance(a_[1] if len(a_) > 1 else k_.get("covariant", True), bool) else Opaque("eps"),
                     "TensorDiagram": lambda a_, k_: SymDiagram([tuple(x) for x in a_]) if all(isinstance(x, (list, tuple)) and len(x) == 2 for x in a_) else Opaque("diagram"),
                     "from_tensor": lambda a_, k_: a_[-1], "_divide_by_power_of_two": lambda a_, k_: a_[0],
+                    "from_array": lambda a_, k_: vec([a_[-1]], False) if a_ and isinstance(a_[-1], Table) and len(a_[-1].shape) == 1 else Opaque("from_array"),
                     "join": lambda a_, k_: dual_call(a_, k_), "meet": lambda a_, k_: dual_call(a_, k_),
                     "Point": lambda a_, k_: vec(a_, True), "Line": lambda a_, k_: vec(a_, False), "Plane": lambda a_, k_: vec(a_, False)}
         return it
